@@ -247,7 +247,8 @@ def check_run(ctx, desc, label, case, events, agent, tr, store, thread_name=None
                 o = remaining[0]
                 d = inv[o.inv]
                 why = 'at-opening-event' if ev is not None and ev.idx == o.idx else 'by-other-invocation' if cands else 'after-invocation-ended'
-                ctx.violation(f'C15/capture-completed-{why}/{ckind}', f'{label}: capture opened at {o} completed at {ev} (invocation {o.inv} spans events '
+                at = f'/at-{ev.kind}' if why == 'by-other-invocation' else ''
+                ctx.violation(f'C15/capture-completed-{why}/{ckind}{at}', f'{label}: capture opened at {o} completed at {ev} (invocation {o.inv} spans events '
                                                                      f'{d["first"]}..{d["last"]})', case)
                 return
             o = own[0]
